@@ -606,6 +606,9 @@ func (x *Exec) callByContract(ct *Contract, callee *types.Func, n *ast.CallExpr,
 		}
 	}
 	for _, en := range ct.Ensures {
+		if en.View != "" && !(x.contract != nil && x.contract.UseViews[en.View]) && !(x.rootContract() != nil && x.rootContract().UseViews[en.View]) {
+			continue // a view of the callee's contract the caller did not ask for
+		}
 		c.assume(post.pc, penv.evalBool(en.E))
 		if varIdx >= 0 {
 			// explicit argument list: also the instances of quantified ensures at its positions (no term of the caller triggers them)
@@ -673,6 +676,14 @@ func (x *Exec) assignBack(e ast.Expr, v Val, st *State) *State {
 		return st // temporary object (e.g. newReader(r).iter()): nothing to store back
 	}
 	return st
+}
+
+// rootContract: the contract of the function under verification (inlined helpers run in a sub-Exec without one).
+func (x *Exec) rootContract() *Contract {
+	if x.c != nil && x.c.eng != nil {
+		return x.c.eng.contracts[x.c.fn]
+	}
+	return nil
 }
 
 // ---- inlining of contract-less helpers of the same module ----
@@ -813,6 +824,9 @@ func (x *Exec) execRangeFunc(n *ast.RangeStmt, st *State, label string) *State {
 			}
 		}
 		for _, en := range ct.Ensures {
+			if en.View != "" && !(x.contract != nil && x.contract.UseViews[en.View]) {
+				continue
+			}
 			if en.NoTrace {
 				continue
 			}
